@@ -9,7 +9,7 @@
     `ThreadInvTD`        the same, in take / drop form (the form of the task statement)
     `MInv f g callss m`  `Inv f m` ∧ every thread i satisfies `ThreadInv` w.r.t. `callss[i]`
     `measure`            upper bound on the own steps a thread still needs
-    `rootOf`, `allowedWrites`
+    `rootOf`, `allowedWrites`, `expectedPkgVars`
 -/
 import JSV.Proofs.Conc
 import JSV.Proofs.ConcFacts
@@ -213,6 +213,12 @@ theorem caches_are_sync_maps :
 theorem caches_exist :
     (Generated.pkgVars.filter fun v => v.1 == "jsonNamesMap" || v.1 == "structProperties").map (·.1) =
       ["jsonNamesMap", "structProperties"] := by
+  decide +kernel
+
+/-- the package has no other package-level variable than the expected ones (ten values fixed in `init` or by their initialiser
+    and the two sync.Map caches): a new process-wide variable — a pool, a memo table, a counter — is new shared state and
+    has to be looked at -/
+theorem pkg_vars_expected_exact : Generated.pkgVars.map (·.1) = expectedPkgVars := by
   decide +kernel
 
 /-- every write through a parameter / receiver / package variable in the package is one of the expected ones
